@@ -225,7 +225,14 @@ def intOp (op : InfixOp) (a b : I64) (sp : Span) : M Val :=
     if b == 0 then throwCtl (.fatal "ValueError" "Division by zero error: this is operation is illegal" sp)
     else pure (.int (a.srem b))
   | .pow =>
-    if b.toInt < 0 then throwCtl (.unsupported "negative integer exponent")
+    if b.toInt < 0 then
+      -- both backends: int64(math.Pow(float64 a, float64 b)); a reciprocal truncates to 0 unless |a| ≤ 1.
+      -- The exponent's parity is that of float64(b): every float64 of magnitude ≥ 2^53 is even.
+      if a == 1 then pure (.int 1)
+      else if a == -1 then
+        pure (.int (if b.toInt > -(2 ^ 53 : Int) && b.toInt % 2 != 0 then -1 else 1))
+      else if a == 0 then throwCtl (.unsupported "0 ** negative exponent (platform-defined conversion of +Inf)")
+      else pure (.int 0)
     else if b.toNat > 4096 then throwCtl (.unsupported "huge integer exponent")
     else pure (.int (powNat a b.toNat))
   | .shl =>
